@@ -73,6 +73,12 @@ class KeyProxy(object):
             if self.store:
                 return bytearray(self.store[0])
             return f(*args, **kw)
+        if mode.startswith("der_"):
+            # degenerate (r, s) pairs for DSA / ECDSA
+            r, sv = {"der_r1_s0": (1, 0), "der_r0_s0": (0, 0),
+                     "der_r1_s1": (1, 1)}[mode]
+            return bytearray(b"\x30\x06\x02\x01" + bytes([r]) +
+                             b"\x02\x01" + bytes([sv]))
         if mode == "pkcs1_13":
             # a *valid* RSASSA-PKCS1-v1_5 signature over the TLS 1.3
             # CertificateVerify content: a scheme TLS 1.3 never allows here
@@ -198,6 +204,10 @@ def make_cases(ctx):
         if ver == (3, 4) and k == "rsa":
             yield base + "-pkcs1_13", dict(site=site, ver=ver, key=k, kx=kx,
                                            role=role, cls="pkcs1_13")
+        if k in ("dsa", "ecdsa", "ecdsa256", "ecdsa384", "ecdsa521", "bp256"):
+            for dcls in ("der_r1_s0", "der_r0_s0", "der_r1_s1"):
+                yield base + "-" + dcls, dict(site=site, ver=ver, key=k,
+                                              kx=kx, role=role, cls=dcls)
         if site == "pha":
             yield base + "-badfin", dict(site=site, ver=ver, key=k, kx=kx,
                                          role=role, cls="pha_bad_finished")
@@ -262,7 +272,8 @@ def run_proof(ctx, cid, P):
     site, k, role, cls = P["site"], P["key"], P["role"], P["cls"]
     table = "server" if role == "server" else "client"
     chain, real = load_key(table, k)
-    mode = cls if cls in CLASSES or cls == "pkcs1_13" else "honest"
+    mode = cls if cls in CLASSES or cls == "pkcs1_13" or \
+        cls.startswith("der_") else "honest"
     other = None
     if mode == "other_key":
         ot, on = OTHER[k]
@@ -353,7 +364,7 @@ def run_proof(ctx, cid, P):
     if cls == "pkcs1_13" and not holder.get("relabelled"):
         ctx.count("corruption_not_reached")
         return
-    if cls in CLASSES and px.corrupted == 0:
+    if (cls in CLASSES or cls.startswith("der_")) and px.corrupted == 0:
         ctx.count("corruption_not_reached")
         ctx.cell("cell", "%s|%s|%s|not_reached" % (site, keytype, cls))
         return
